@@ -198,3 +198,46 @@ def check_rows_shape(rows, k):
             if rows[v][j] not in (-1, lat[j]):
                 return False
     return True
+
+
+def intersection_scores(arc_set, k, has_insertion=True, has_deletion=True):
+    """Reference model of the intersection score of every arc (v, j) of a graph given as a set of arcs:
+    with leaves(x) = set of end points of the (k-1)-step walks from x (a vertex without arcs contributes nothing),
+    substitution: for every unordered pair of out-arcs of v, |leaves(s1) U leaves(s2)| is added to both arcs;
+    insertion:    for every out-arc v->s and every out-arc s->t, |leaves(s) U leaves(t)| is added to v->s;
+    deletion:     for every out-arc v->s, |leaves(s) U leaves(v)| is added to v->s."""
+    succ = {}
+    for (v, j) in sorted(arc_set):
+        succ.setdefault(v, []).append(latters(v, k)[j])
+    depth = k - 1
+    cache = {}
+
+    def leaves(x):
+        if x not in cache:
+            level = {x: 1}
+            frontier = [x]
+            for _ in range(depth):
+                nxt = []
+                for u in frontier:
+                    nxt.extend(succ.get(u, []))
+                frontier = nxt
+            cache[x] = frozenset(frontier)
+        return cache[x]
+
+    scores = {}
+    for v, outs in succ.items():
+        branch = [leaves(s) for s in outs]
+        for a in range(len(outs)):
+            for b in range(a + 1, len(outs)):
+                sc = len(branch[a] | branch[b])
+                scores[(v, outs[a] % 4)] = scores.get((v, outs[a] % 4), 0) + sc
+                scores[(v, outs[b] % 4)] = scores.get((v, outs[b] % 4), 0) + sc
+        if has_insertion:
+            for i, s_ in enumerate(outs):
+                for t in succ.get(s_, []):
+                    scores[(v, s_ % 4)] = scores.get((v, s_ % 4), 0) + len(branch[i] | leaves(t))
+        if has_deletion:
+            own = leaves(v)
+            for i, s_ in enumerate(outs):
+                scores[(v, s_ % 4)] = scores.get((v, s_ % 4), 0) + len(branch[i] | own)
+    return scores
